@@ -16,9 +16,9 @@ EXPLANATION = (
     "and that descent's decision table (obscure iff membership != revealing), Elide arm (= Elided(digest(self))), elide primitive and "
     "same-case rebuild over all five child kinds are re-evaluated here (the C03 instances). C12.6: the single-target entry points "
     "are the set versions over {digest(target)}, and every recursive search reachable from a proof entry point enters all five "
-    "child kinds. Does not decide set semantics of std HashSet.")
+    "child kinds. C12.7 (known finding D10): the prover elides every caller-supplied target while the verifier needs every target found, so a target nested inside another target yields a proof that is rejected; reported as long as the removing set is the raw target set. Does not decide set semantics of std HashSet.")
 TRUSTED = ['HashSet::{contains,insert,remove,is_subset,is_empty,extend} have their std semantics']
-FLOORS = {'C12.1': 2, 'C12.2': 2, 'C12.3': 11, 'C12.4': 1, 'C12.5': 8, 'C12.6': 4}
+FLOORS = {'C12.1': 2, 'C12.2': 2, 'C12.3': 11, 'C12.4': 1, 'C12.5': 8, 'C12.6': 4, 'C12.7': 1}
 P1, P2, P3, P4 = ('param', 1), ('param', 2), ('param', 3), ('param', 4)
 
 
@@ -48,6 +48,24 @@ def check(ctx):
             else:
                 ctx.fail('C12.6', ctx.site(b, bi, si), '%s is not %s over the one-element set {digest(target)} (its own search / test is not one the set rules cover): %s'
                          % (name, setfn.name, fmt(v)), key='C12.6|' + name, rule='FLOW/IDIOM-UNKNOWN')
+    # ---- C12.7 prover / verifier agreement for nested targets. The verifier accepts iff every target digest is found in the proof, and an
+    # elided element has no children there; the prover elides EVERY caller-supplied target (the removing set is the raw target set).
+    # A target that lies inside another target is therefore hidden under the elided outer one, and the produced proof is rejected.
+    # Reported when the removing set of the produced proof is exactly the caller's target set (no nesting-aware filtering, no refusal).
+    if pcs is not None:
+        ptb = TermBuilder(F, pcs)
+        for bi, si, t in accept_sites(pcs, ptb):
+            v = strip_sites(t[3][0]) if t[0] == 'agg' and t[2] == 'Some' else strip_sites(t)
+            o = m_call(v, name='elide_removing_set', self_suffix='Envelope')
+            if o is None:
+                continue
+            nesting_guard = find_terms(pcs, ptb, lambda x: x[0] == 'call' and call_name(x) in ('is_disjoint', 'intersection', 'difference', 'retain') )
+            if strip_sites(o[1]) == P2 and not nesting_guard:
+                ctx.fail('C12.7', ctx.site(pcs, bi, si), 'the proof elides every caller-supplied target (removing set = the raw target set) while the verifier must find every target in '
+                         'the proof, and nothing below an elided element is present there: for a target set in which one target lies inside another (an assertion and '
+                         'its object, a node and its subject) the produced proof is rejected by confirm_contains_set', key='C12.7|nested-targets')
+            else:
+                ctx.ok('C12.7', ctx.site(pcs, bi, si), 'the removing set of the produced proof is not the raw target set (nested targets are treated before eliding)')
     # every recursive search reachable from a proof entry point visits all five child kinds (a kind never entered hides targets there)
     seen = set()
     for entry in ('proof_contains_set', 'proof_contains_target', 'confirm_contains_set', 'confirm_contains_target'):
